@@ -4,7 +4,7 @@
    edit_l, set, build.  Every event is one action of CTBuild.tla; a build event carries what the
    real builder reported and left on disk, and what a clean build into an empty directory of the
    same sources and settings produced. *)
-EXTENDS CTBuild, Json, IOUtils
+EXTENDS CTBuild, SequencesExt, Json, IOUtils
 Rec == ndJsonDeserialize(IOEnv.TRACE)
 VARIABLES l, inst, ndev, GI, LI
 tvars == <<l, inst, ndev, GI, LI, cvars>>
@@ -37,7 +37,9 @@ TNext ==
   /\ l <= Len(Rec) /\ l' = l + 1
   /\ LET e == Rec[l] IN
      CASE e.ev = "hist" ->
-            /\ inst' = e.id /\ GI' = e.ginfo /\ LI' = e.linfo /\ UNCHANGED ndev
+            /\ inst' = e.id /\ UNCHANGED ndev
+            /\ GI' = [v \in DOMAIN e.ginfo |-> [e.ginfo[v] EXCEPT !.names = ToSet(e.ginfo[v].names)]]
+            /\ LI' = [v \in DOMAIN e.linfo |-> [e.linfo[v] EXCEPT !.names = ToSet(e.linfo[v].names)]]
             /\ gv' = e.g0 /\ gm' = 1 /\ lv' = e.l0 /\ lm' = 1 /\ opts' = e.opts0
             /\ pout' = Absent /\ lout' = Absent /\ clock' = 2 /\ last' = [ok |-> TRUE, regenerated |-> FALSE, stage |-> "none"]
        [] e.ev = "edit_g" -> EditGrammar(e.v) /\ UNCHANGED <<inst, ndev, GI, LI>>
